@@ -58,7 +58,11 @@ from apischema.objects.visitor import (
 from apischema.ordering import Ordering, sort_by_order
 from apischema.recursion import RecursiveConversionsVisitor
 from apischema.schemas import Schema, merge_schema
-from apischema.serialization import SerializationMethod, serialize
+from apischema.serialization import (
+    PassThroughOptions,
+    SerializationMethod,
+    serialize,
+)
 from apischema.serialization.serialized_methods import ErrorHandler
 from apischema.type_names import TypeName, TypeNameFactory, get_type_name
 from apischema.types import AnyType, NoneType, Undefined, UndefinedType
@@ -500,6 +504,8 @@ class InputSchemaBuilder(
                     field_default,
                     aliaser=self.aliaser,
                     conversion=field.deserialization,
+                    # GraphQL internal value of an enum is the member
+                    pass_through=PassThroughOptions(enums=True),
                 )
             except Exception:
                 field_type = Optional[field_type]
@@ -668,6 +674,8 @@ class OutputSchemaBuilder(
                             param.default,
                             fall_back_on_any=False,
                             check_type=True,
+                            # GraphQL internal value of an enum is the member
+                            pass_through=PassThroughOptions(enums=True),
                         )
                     except Exception:
                         param_type = Optional[param_type]
